@@ -353,6 +353,17 @@ def gen_std_modules():
     if not re.search(r"needs\s*\.\s*path\s*\.\s*last\(\)", b_dyn):
         raise ExtractError("native_load.rs: policy lookup no longer by last path segment")
     empty_caps_skip = bool(re.search(r"!\s*policy\.capabilities\.is_empty\(\)", b_dyn))
+    # every policy component (capabilities, checksum, required_version) must be looked up under the SAME key
+    def lookup_keys(body, what):
+        keys = [re.sub(r"[&\s]", "", k) for k in re.findall(r"\.\s*module\s*\(\s*([^()]*?)\s*\)", body)]
+        if not keys:
+            raise ExtractError(f"{what}: no manifest policy lookup found")
+        return keys
+    keys_dyn = lookup_keys(b_dyn, "native_load.rs::load_native_module")
+    keys_emb = lookup_keys(fn_body(run, "load_bundled_module", "cli run.rs"), "cli run.rs::load_bundled_module")
+    # the key of the dynamic route must be the last path segment (how [module.NAME] entries are keyed)
+    kd = keys_dyn[0]
+    last_seg = bool(re.search(r"let\s+" + re.escape(kd) + r"\s*=\s*needs\s*\.\s*path\s*\.\s*last\(\)", b_dyn))
     # which manifest each route passes
     aasm = fn_body(run, "run_aasm_file", "cli run.rs")
     m_aasm = re.search(r"load_required_modules\(\s*&mut vm\s*,\s*path\s*,\s*src\s*,\s*&required_modules\s*,\s*([A-Za-z_.()]+)", aasm)
@@ -416,6 +427,10 @@ def gen_std_modules():
     out.append(f"Definition native_cap_check_order : list string := {coq_list(q(x) for x in order_cfg)}.\n")
     out.append(f"Definition dynamic_check_order : list string := {coq_list(q(x) for x in order_dyn)}.\n")
     out.append(f"Definition embedded_check_order : list string := {coq_list(q(x) for x in order_emb)}.\n")
+    out.append("(* key expressions of the manifest lookups in load_native_module / load_bundled_module, in source order *)\n")
+    out.append(f"Definition dynamic_policy_lookup_keys : list string := {coq_list(q(x) for x in keys_dyn)}.\n")
+    out.append(f"Definition embedded_policy_lookup_keys : list string := {coq_list(q(x) for x in keys_emb)}.\n")
+    out.append(f"Definition dynamic_policy_key_is_last_segment : bool := {b(last_seg)}.\n")
     out.append(f"Definition empty_capability_list_skips_check : bool := {b(empty_caps_skip)}.\n")
     out.append(f"Definition source_route_uses_project_manifest : bool := {b(source_project)}.\n")
     out.append(f"Definition avbc_route_uses_embedded_manifest_only : bool := {b(avbc_embedded)}.\n")
